@@ -41,8 +41,9 @@ int eb_cmp(const eb_t p, const eb_t q) {
     eb_t r, s;
     int result = RLC_NE;
 
-	if (eb_is_infty(p) && eb_is_infty(q)) {
-		return RLC_EQ;
+	if (eb_is_infty(p) || eb_is_infty(q)) {
+		/* The cross-multiplication below is meaningless for z = 0. */
+		return (eb_is_infty(p) && eb_is_infty(q) ? RLC_EQ : RLC_NE);
 	}
 
     eb_null(r);
